@@ -276,14 +276,26 @@ func (self *Interpreter) infixHelper(lhs ast.AnalyzedExpression, rhs ast.Analyze
 		case pAst.MultiplyInfixOperator:
 			intRes = lhsInt.Inner * rhsInt.Inner
 		case pAst.DivideInfixOperator:
+			if rhsInt.Inner == 0 {
+				return nil, nil, value.NewRuntimeErr("Division by zero error: this is operation is illegal", value.ValueErrorKind, rhs.Span())
+			}
 			intRes = lhsInt.Inner / rhsInt.Inner
 		case pAst.ModuloInfixOperator:
+			if rhsInt.Inner == 0 {
+				return nil, nil, value.NewRuntimeErr("Division by zero error: this is operation is illegal", value.ValueErrorKind, rhs.Span())
+			}
 			intRes = lhsInt.Inner % rhsInt.Inner
 		case pAst.PowerInfixOperator:
 			intRes = int64(math.Pow(float64(lhsInt.Inner), float64(rhsInt.Inner)))
 		case pAst.ShiftLeftInfixOperator:
+			if rhsInt.Inner < 0 {
+				return nil, nil, value.NewRuntimeErr("Negative shift count: this is operation is illegal", value.ValueErrorKind, rhs.Span())
+			}
 			intRes = lhsInt.Inner << rhsInt.Inner
 		case pAst.ShiftRightInfixOperator:
+			if rhsInt.Inner < 0 {
+				return nil, nil, value.NewRuntimeErr("Negative shift count: this is operation is illegal", value.ValueErrorKind, rhs.Span())
+			}
 			intRes = lhsInt.Inner >> rhsInt.Inner
 		case pAst.BitOrInfixOperator:
 			intRes = lhsInt.Inner | rhsInt.Inner
@@ -328,6 +340,9 @@ func (self *Interpreter) infixHelper(lhs ast.AnalyzedExpression, rhs ast.Analyze
 		case pAst.MultiplyInfixOperator:
 			floatRes = lhsFloat.Inner * rhsFloat.Inner
 		case pAst.DivideInfixOperator:
+			if rhsFloat.Inner == 0.0 {
+				return nil, nil, value.NewRuntimeErr("Division by zero error: this is operation is illegal", value.ValueErrorKind, rhs.Span())
+			}
 			floatRes = lhsFloat.Inner / rhsFloat.Inner
 		case pAst.PowerInfixOperator:
 			floatRes = math.Pow(lhsFloat.Inner, rhsFloat.Inner)
